@@ -58,20 +58,6 @@ Proof.
 Qed.
 Print Assumptions C01_to_t4_cell_sound.
 
-From T4V Require Import C01.ProofsRefuted.
-
-(* without the guard "no None operand" the statement is false of the faithful
-   model: cell 1 = -1 (cell 2), cell 2 = 2 -2.  The emitted non-FICTIVE volume 1
-   is `EQUA MINUS 1 1 INTE 1 None`; it has no denotation for any sigma. *)
-Theorem C01_to_t4_cell_emptyref_refuted :
-  exists s, convert_cells 3 w_cells w_matching 4 5 [1] (mkSt 2 [] [] []) = Ok s /\
-            no_none (vols s) = false /\
-            (exists v, lookup 1 (vols s) = Some v /\ v_fict v = false /\
-                       v_ops v = Some (OInter, [None])) /\
-            forall sigma b, ~ Vden sigma (vols s) 1 b.
-Proof. exact emptyref_refuted. Qed.
-Print Assumptions C01_to_t4_cell_emptyref_refuted.
-
 From T4V Require Import C01.ProofsCells C01.ProofsPrune.
 
 (* convert_cellref (any fuel) meets the specification that C01_to_t4_cell_sound
